@@ -47,10 +47,10 @@ package actionlint
 //@   props C10 C15
 //@   anchor
 //@   loop "range ws":
-//@     body_calls (*Projects).At iff project == nil
+//@     body_calls (*Projects).At iff project0 == nil
 //@     at_call (*Projects).At: path == w.path
-//@     at_call (*LocalActionsCacheFactory).GetCache: project != nil ==> p == project
-//@     at_call (*LocalReusableWorkflowCacheFactory).GetCache: project != nil ==> p == project
+//@     at_call (*LocalActionsCacheFactory).GetCache: project0 != nil ==> p == project0
+//@     at_call (*LocalReusableWorkflowCacheFactory).GetCache: project0 != nil ==> p == project0
 //@     invariant forall k: string :: acf.caches.has(k) ==> acf.caches[k] != nil && acf.caches[k].proj != nil && acf.caches[k].proj.root == k
 //@     invariant forall k: string :: rwcf.caches.has(k) ==> rwcf.caches[k] != nil && rwcf.caches[k].proj != nil && rwcf.caches[k].proj.root == k
 //@ func (*Linter).LintFiles$1
